@@ -30,6 +30,11 @@ TV = {
     'C10': ('translation_validation', 'per generated pattern, the directly constructed automaton is compared with the documented meaning (symbolic word up to a length bound) and with the NFA-route automaton by an inductive bisimulation step over all code points except U+0000 (no length bound)', '§7 C10'),
 }
 
+CHECKS.update({
+    'C08': ('model_checking', 'per specification of an emission corpus the real generator is run, the emitted package must build with the standard library only (auxiliary), and its go/ssa is executed symbolically: emitted advanceDFA (summarised) and evalDFA are compared with the token automaton of the same tree for every integer state and every int32 rune (no bound in that domain)', '§7 C08'),
+    'C19': ('model_checking', 'symbolic execution of the emitted package itself (New, NextToken, evalDFA, the emitted two-buffer reader and stack): concrete paddings sweeping the buffer alignments + arbitrary ASCII bytes + concrete tails with multi-byte characters, compared call by call with the reference token stream of the token automaton and the documented skip/discard rules', '§7 C19'),
+})
+
 NA = {
     'C07': 'well-formedness checks run on hash tables keyed by fnv hashes and are reachable only through the whole parse; a solver decides nothing there that running the program does not (DESIGN.md §7 C07)',
     'C12': 'structural equality between two finite lists per directive list; no second dimension for a solver to quantify over (DESIGN.md §7 C12)',
